@@ -50,33 +50,41 @@ NameChar(S, c) ==
                           ELSE [S EXCEPT !.labels = Append(@, S.cur), !.cur = <<>>, !.dot = TRUE]
            [] OTHER    -> [S EXCEPT !.cur = Append(@, Low(c)), !.dot = FALSE]
 
+\* Labels the reading is decisive for (RFC 2181 11: any octets are legal in a label; judged here
+\* is what Name::from_ascii takes as well): letters, digits, hyphen (anywhere but in the first
+\* position: interior, LAST, doubled, also in positions 3-4 as in r3---sn), underscore, escaped
+\* dot (interior, not doubled), the wildcard label.  Not judged: a leading hyphen (left open),
+\* anything containing "xn--" (IDNA decoding), length > 63.
+HasXn(l) == \E i \in 1..(Len(l) - 3) : l[i] = "x" /\ l[i + 1] = "n" /\ l[i + 2] = "-" /\ l[i + 3] = "-"
 HostLabel(l) ==
     /\ Len(l) \in 1..63
     /\ \/ l = <<"*">>
        \/ /\ \A i \in DOMAIN l : l[i] \in LetterCh \cup DigitCh \cup {"-", "_", "."}
-          /\ l[1] # "-" /\ l[Len(l)] # "-"
-          /\ \A i \in 2..Len(l) : l[i] # "_"
-          /\ ~(Len(l) >= 4 /\ l[3] = "-" /\ l[4] = "-")          \* xn-- and friends: IDNA, not judged
+          /\ l[1] # "-"
+          /\ ~HasXn(l)
           /\ l[1] # "." /\ l[Len(l)] # "."                        \* dot at the edge of a label: not judged
+          /\ \A i \in 1..(Len(l) - 1) : ~(l[i] = "." /\ l[i + 1] = ".")
+\* an underscore anywhere but in a label that starts with one (the SRV style)
+Underscored(l) == l[1] # "_" /\ \E i \in DOMAIN l : l[i] = "_"
 
 NameLen(labels) == FoldLeft(LAMBDA a, l : a + 1 + Len(l), 1, labels)
 
 \* origin: sequence of label strings (absolute).  Result name: sequence of label strings.
 \* (Helper operators take intermediate results as parameters instead of LET definitions: TLC's
 \* coverage instrumentation expands every LET reference, parameters are expanded once.)
-NoName == [st |-> "unspec", name |-> <<>>, form |-> ""]
+NoName == [st |-> "unspec", name |-> <<>>, form |-> "", und |-> FALSE]
 OriginLen(origin) == FoldLeft(LAMBDA a, l : a + 1 + Len(l), 0, origin)
 NameDone(labs, abs, origin) ==
     IF labs = <<>> \/ \E i \in DOMAIN labs : ~HostLabel(labs[i]) THEN NoName
     ELSE IF NameLen(labs) + (IF abs THEN 0 ELSE OriginLen(origin)) > 255 THEN NoName
     ELSE [st |-> "ok", name |-> [i \in DOMAIN labs |-> Cat(labs[i])] \o (IF abs THEN <<>> ELSE origin),
-          form |-> IF abs THEN "abs" ELSE "rel"]
+          form |-> IF abs THEN "abs" ELSE "rel", und |-> \E i \in DOMAIN labs : Underscored(labs[i])]
 NameScanned(S, origin) ==
     IF S.st # "ok" \/ S.esc THEN NoName
     ELSE NameDone(IF S.cur = <<>> THEN S.labels ELSE Append(S.labels, S.cur), S.cur = <<>> /\ S.dot, origin)
 ParseName(raw, origin) ==
-    IF raw = <<"@">> THEN [st |-> "ok", name |-> origin, form |-> "at"]
-    ELSE IF raw = <<".">> THEN [st |-> "ok", name |-> <<>>, form |-> "abs"]
+    IF raw = <<"@">> THEN [st |-> "ok", name |-> origin, form |-> "at", und |-> FALSE]
+    ELSE IF raw = <<".">> THEN [st |-> "ok", name |-> <<>>, form |-> "abs", und |-> FALSE]
     ELSE NameScanned(FoldLeft(NameChar, NameInit, raw), origin)
 
 HasEscDot(raw) == \E i \in 1..(Len(raw) - 1) : raw[i] = "\\" /\ raw[i + 1] = "."
@@ -157,7 +165,8 @@ NoField == [st |-> "unspec", val |-> <<>>, tags |-> {}]
 NameField(r, it, type) ==
     [st |-> r.st, val |-> r.name,
      tags |-> {"rdname-" \o r.form, "rdname-" \o r.form \o ":" \o type}
-              \cup (IF HasEscDot(it.v) THEN {"name-escdot"} ELSE {})]
+              \cup (IF HasEscDot(it.v) THEN {"name-escdot"} ELSE {})
+              \cup (IF r.und THEN {"name-interior-underscore"} ELSE {})]
 StrField(r, it) ==
     [st |-> r.st, val |-> <<r.val>>,
      tags |-> (IF it.q THEN {"str-quoted"} \cup (IF it.p THEN {"str-quoted-in-paren"} ELSE {})
@@ -225,6 +234,7 @@ RRTags(C, ln, own, h, rd) ==
     rd.tags
     \cup {"owner-" \o own.form}
     \cup (IF ~ln.bl /\ HasEscDot(ln.items[1].v) THEN {"name-escdot"} ELSE {})
+    \cup (IF own.und THEN {"name-interior-underscore"} ELSE {})
     \cup {IF h.ttl = "" THEN (IF C.ttlDef # "" THEN "ttl-from-$TTL" ELSE "ttl-from-last") ELSE "ttl-explicit"}
     \cup {IF h.class = "" THEN "class-inherited" ELSE "class-explicit"}
     \cup (IF h.ti # 0 /\ h.ci # 0 THEN {IF h.ti < h.ci THEN "order-ttl-class" ELSE "order-class-ttl"} ELSE {})
@@ -251,14 +261,15 @@ RRLine2(C, ln, own) ==
     ELSE RRLine3(C, ln, own, RRHead(ln.items, IF ln.bl THEN 1 ELSE 2, "", "", 0, 0))
 RRLine(C, ln) ==
     RRLine2(C, ln,
-            IF ln.bl THEN [st |-> IF C.hasOwner THEN "ok" ELSE "unspec", name |-> C.owner, form |-> "blank"]
+            IF ln.bl THEN [st |-> IF C.hasOwner THEN "ok" ELSE "unspec", name |-> C.owner, form |-> "blank", und |-> FALSE]
             ELSE IF ln.items[1].q THEN NoName
             ELSE ParseName(ln.items[1].v, C.origin))
 
 DirParen(ln) == IF \E i \in 1..2 : ln.items[i].p \/ ln.items[i].pb THEN {"paren-directive"} ELSE {}
 OriginLine(C, ln, r) ==
     IF r.st # "ok" THEN Fail(C, "unspec", "$ORIGIN name")
-    ELSE [C EXCEPT !.origin = r.name, !.tags = @ \cup {"$ORIGIN-" \o r.form} \cup DirParen(ln)]
+    ELSE [C EXCEPT !.origin = r.name, !.tags = @ \cup {"$ORIGIN-" \o r.form} \cup DirParen(ln)
+                                            \cup (IF r.und THEN {"name-interior-underscore"} ELSE {})]
 Directive(C, ln, d) ==
     CASE d = "$ORIGIN" ->
             IF Len(ln.items) # 2 \/ ln.items[2].q \/ ln.items[2].v = <<"@">> THEN Fail(C, "unspec", "$ORIGIN arguments")
